@@ -240,6 +240,22 @@ const c08GitLog = `[a1b2c3d] Ann 2020-01-01 feat: add files
  rename vendor/lib.txt => third_party/lib.txt (100%)
  create mode 100644 vendor/lib.txt
 
+[a7b8c9d] Cy 2020-01-06 docs: files with a blank in their path
+2	0	my docs/a b.txt
+1	0	my docs/keep me.txt
+ create mode 100644 my docs/a b.txt
+ create mode 100644 my docs/keep me.txt
+
+[b8c9d0e] Bob 2020-01-07 docs: move them and write the old names again
+0	0	my docs/{a b.txt => c d.txt}
+3	0	my docs/a b.txt
+0	0	my docs/keep me.txt => attic/keep me.txt
+1	0	my docs/keep me.txt
+ rename my docs/{a b.txt => c d.txt} (100%)
+ create mode 100644 my docs/a b.txt
+ rename my docs/keep me.txt => attic/keep me.txt (100%)
+ create mode 100644 my docs/keep me.txt
+
 `
 
 const c08GoSrc = `package p
